@@ -43,7 +43,10 @@ RULE = (
     "subsets of Meta's fields including the eq=False ones remote/is_link/destination/nlink} (a mutation "
     "changes those fields alone; the reference applies the drawn key itself and, without a key, Meta's "
     "own equality, which ignores the eq=False fields), shallow, with_renames "
-    "(never with meta_only: asserted by the code), with_unknown, roots in {None, [()], 1-4 drawn "
+    "(never with meta_only: asserted by the code), with_unknown, derivation of the second index in "
+    "{independent build (distinct, equal objects), the very same DataIndexEntry object in both indexes "
+    "(new[k] = old[k]) for all / the directory / a drawn subset of the keys whose entries are equal, one "
+    "interned Meta / HashInfo object per value reused under every key on both sides} (plain arms), roots in {None, [()], 1-4 drawn "
     "non-overlapping keys in drawn order: files, explicit/implicit directories, keys missing on one or both "
     "sides} (reference = the same table restricted to keys at or below a root, independent of root "
     "order; not in the storage arm). A storage arm attaches a cache "
@@ -90,6 +93,10 @@ ASSUMPTIONS = [
     "roots do not overlap (no duplicates, no root a prefix of another): each root is diffed on its own, so "
     "shared keys are reported once per root by design of the loop; roots are not drawn in the storage arm "
     "(a root inside an un-enumerable directory raises DataIndexDirError from info())",
+    "an entry object is shared between the two indexes only under the same key: DataIndexEntry.key is part "
+    "of the object (Change.key reads it), so one object stored under two different keys is ill-formed; "
+    "re-use under different keys is covered for the Meta / HashInfo sub-objects instead. Sharing is not "
+    "generated in the storage arm (loading flips entry.loaded on the shared object) nor in the SQLite arm",
     "hash_only and meta_only are not combined; with_renames is not combined with meta_only (assert in diff())",
 ]
 
@@ -432,6 +439,7 @@ def _history(draw, spec):
     return ops
 
 
+_sharekind = st.sampled_from([0, 0, 1, 0, 2, 0, 3, 5, 0, 4, 1, 2])
 _rootkind = st.sampled_from([0, 0, 2, 0, 3, 0, 1, 4, 0, 2, 5, 3])
 
 
@@ -502,6 +510,20 @@ def cases(draw, mode=None, renames=None, storage=False, sqlite=False):
     }
     case = {"old": a, "new": b, "opts": opts, "ops": ops}
     opts["roots"] = None if storage else _roots(draw, a, b)
+    if not storage and not sqlite and a is not None and b is not None:
+        kind = draw(_sharekind)
+        if kind:
+            share = {}
+            if kind in (1, 3):
+                share["keys"] = "all"
+            elif kind == 2:
+                share["keys"] = "dirs"
+            elif kind == 5:
+                same = [e[0] for e in a if e in b]
+                share["keys"] = [k for k in same if draw(_bool)]
+            if kind in (3, 4):
+                share["intern"] = True
+            case["share"] = share
     if sqlite:
         # either side may be an SQLite-backed index (DataIndex.open) that reaches its content through
         # an edit history in one session; at least one side is
@@ -720,7 +742,7 @@ def ref_renames(table, ov, nv):
 # ------------------------------------------------------------------------------------------------
 # running the real thing
 # ------------------------------------------------------------------------------------------------
-def build_index(spec, odb=None, sqpath=None, handles=None):
+def build_index(spec, odb=None, sqpath=None, handles=None, donors=None, made=None, intern=None):
     """odb: storage arm - the index gets a cache ObjectStorage at (); explicit directory entries are
     marked loaded (the form the loader itself leaves behind), "L"/"U" entries are unloaded .dir entries;
     the listing object of an "L" entry is written into the store as reference bytes, the keys below it
@@ -743,11 +765,26 @@ def build_index(spec, odb=None, sqpath=None, handles=None):
             continue
         lz = _lazy_kind(h)
         h = spec_hash(spec, key, h)
-        entry = DataIndexEntry(
-            key=key,
-            meta=None if meta is None else Meta(**meta),
-            hash_info=None if h is None else HashInfo(name=h[0], value=h[1]),
-        )
+        if donors is not None and key in donors:
+            # derived index: the very same DataIndexEntry object as in the other index (new[k] = old[k])
+            idx[key] = donors[key]
+            continue
+        if intern is None:
+            m_obj = None if meta is None else Meta(**meta)
+            h_obj = None if h is None else HashInfo(name=h[0], value=h[1])
+        else:
+            # one Meta / HashInfo object per distinct value, reused under every key and on both sides
+            mk = None if meta is None else ("m", json.dumps(meta, sort_keys=True))
+            hk = None if h is None else ("h", h[0], h[1])
+            if mk is not None and mk not in intern:
+                intern[mk] = Meta(**meta)
+            if hk is not None and hk not in intern:
+                intern[hk] = HashInfo(name=h[0], value=h[1])
+            m_obj = None if mk is None else intern[mk]
+            h_obj = None if hk is None else intern[hk]
+        entry = DataIndexEntry(key=key, meta=m_obj, hash_info=h_obj)
+        if made is not None:
+            made[key] = entry
         if odb is not None and isdir and not lz:
             entry.loaded = True
         if lz == "L":
@@ -1055,6 +1092,13 @@ def _run(case, odb, sqdir=None, handles=None):  # noqa: C901, PLR0912, PLR0915
     acc = {k: v for k, v in acc.items() if covered(k)}
 
     sq = case.get("sqlite") or {}
+    # how the second index is derived: independent build, entries shared by reference with the first
+    # index (new[k] = old[k]) for the selected keys whose entries are equal, interned Meta/HashInfo objects
+    share = case.get("share")
+    if share and (sq or odb is not None):
+        raise HarnessError("entry sharing is only generated for plain in-memory indexes")
+    intern = {} if share and share.get("intern") else None
+    made_old, shared_keys = {}, set()
     built = {}
     for side in ("old", "new"):
         if sq.get(side) is not None:
@@ -1063,7 +1107,18 @@ def _run(case, odb, sqdir=None, handles=None):  # noqa: C901, PLR0912, PLR0915
             handles.append(built[side])
         else:
             stsq = os.path.join(sqdir, side + ".db") if odb is not None and sqdir else None
-            built[side] = build_index(case[side], odb, stsq, handles)
+            donors = None
+            if side == "new" and share and share.get("keys") and fo is not None and fn is not None:
+                sel = share["keys"]
+                picked = None if isinstance(sel, str) else {tuple(k) for k in sel}
+                donors = {
+                    k: made_old[k] for k, e in fo.items()
+                    if k in made_old and fn.get(k) == e
+                    and (sel == "all" or (sel == "dirs" and e["isdir"]) or (picked is not None and k in picked))
+                }
+                shared_keys = set(donors)
+            built[side] = build_index(case[side], odb, stsq, handles, donors=donors,
+                                      made=made_old if side == "old" else None, intern=intern)
     old, new = built["old"], built["new"]
     viols = []
     counters = {}
@@ -1242,6 +1297,16 @@ def _run(case, odb, sqdir=None, handles=None):  # noqa: C901, PLR0912, PLR0915
     for o in ("with_unchanged", "cmpkey", "shallow", "with_renames", "with_unknown"):
         if opts[o]:
             classes.append(o)
+    if share:
+        if share.get("intern"):
+            classes.append("derive:interned-meta-hash-objects")
+        if shared_keys:
+            classes.append("derive:shared-entry-objects")
+            both = set(ov) | set(nv)
+            if any(fo[k]["isdir"] and any(
+                    len(x) > len(k) and x[:len(k)] == k and ov.get(x) != nv.get(x) for x in both)
+                   for k in shared_keys):
+                classes.append("derive:shared-dir-entry-with-change-below")
     if roots is not None:
         classes.append("roots")
         if len(roots) >= 2:
